@@ -261,7 +261,19 @@ pub fn adts_frame(r: &mut Rng, payload_len: usize, trailing: usize) -> (Vec<u8>,
 /// Invalid ADTS variants (each violates exactly one documented structural rule).
 pub fn bad_adts(r: &mut Rng) -> Vec<u8> {
     let payload = r.bytes_range(1, 20);
-    match r.below(8) {
+    match r.below(10) {
+        8 => {
+            // header only (declared length == header length), either protection mode
+            let pa = r.chance(1, 2);
+            build_adts(1, 3, 2, pa, &[], None, 0, 0)
+        }
+        9 => {
+            // declared length one below / above the header length, buffer long enough
+            let pa = r.chance(1, 2);
+            let hdr = if pa { 7 } else { 9 };
+            let d = if r.chance(1, 2) { hdr - 1 } else { hdr };
+            build_adts(1, 3, 2, pa, &payload, Some(d), 0, 0)
+        }
         0 => r.bytes_range(1, 6), // too short
         1 => {
             let mut f = build_adts(1, 3, 2, true, &payload, None, 0, 0);
